@@ -1,6 +1,7 @@
 package harness
 
 import (
+	"time"
 	"fmt"
 
 	"github.com/omec-project/upf-epc/pfcpiface"
@@ -76,6 +77,12 @@ func scenarioC09(r *Run) {
 		return def
 	}
 	r.DrawStrategy()
+	if r.Ch.Choose(4, "lost-responses") == 1 {
+		// the response of an RPC is lost now and then after the daemon applied the
+		// command (the plug-in sees an error): what the tables hold is unaffected
+		r.W.Bess.Faults.FailDen, r.W.Bess.Faults.FailLostResp = []int{8, 20}[r.Ch.Choose(2, "lost-den")], true
+		r.W.Bess.Faults.LatJit = 300 * time.Microsecond
+	}
 	p := r.AddPeer()
 	r.StartAgent()
 	if !r.AgentAlive() || p.AssociateRetry() == nil {
